@@ -2,6 +2,7 @@
 import ast
 
 from ..project import AnalysisError, FunctionInfo, loc, norm_stmt
+from .common import const_value
 from ..flow import dotted, eval_test
 from ..norm import single_defs
 
@@ -1620,6 +1621,12 @@ def rule_raw1(ctx):
                     and x.value.id == param and isinstance(
                         x.slice, ast.Tuple):
                 raw_use = x           # a[i, j] / a[:k, :k]: ndarray indexing
+            if isinstance(x, ast.keyword) and x.arg == "like" \
+                    and isinstance(x.value, ast.Name) \
+                    and x.value.id == param:
+                # `like=` reads the dtype of its value: a list has none, and
+                # the buffer silently falls back to float64
+                raw_use = x.value
             if raw_use is None:
                 continue
             uses += 1
@@ -1652,3 +1659,188 @@ def rule_raw1(ctx):
                 "examples use for the row-vector form) has no such "
                 "attribute -> AttributeError / TypeError, while the same "
                 "numbers as an ndarray are accepted", instance=inst)
+
+
+def rule_astype1(ctx, rels):
+    from ..norm import single_defs
+    r = ctx.r
+    r.rule("ASTYPE1", "a matrix of cosines / quotients is cast with "
+                      "`.astype(dtype)` only to a dtype that cannot be an "
+                      "integer type: where `dtype` comes from "
+                      "utils.check_type(**kwargs) the call passes "
+                      "integer_type=False (as standard_rotation and the "
+                      "factories of utils do). With the default "
+                      "integer_type=True, `like=np.int64(1)` / "
+                      "`like=G.coxeter_matrix` makes dtype int64 and the "
+                      "cosine form -cos(pi/m) is truncated to the identity: "
+                      "(ab)^3 != I for the label 3, silently")
+    n = 0
+    for rel in rels:
+        mod = ctx.p.module_by_rel(rel)
+        for f in ctx.p.all_functions:
+            if f.module is not mod:
+                continue
+            # names bound from check_type(..) results
+            typed = {}
+            for st in ast.walk(f.node):
+                if isinstance(st, ast.Assign) and isinstance(
+                        st.value, ast.Call) and dotted(st.value.func) in (
+                        "utils.check_type", "check_type"):
+                    it_false = any(
+                        k.arg == "integer_type"
+                        and const_value(k.value) is False
+                        for k in st.value.keywords)
+                    for t in st.targets:
+                        for e in (t.elts if isinstance(t, ast.Tuple) else [t]):
+                            if isinstance(e, ast.Name):
+                                typed[e.id] = (st, it_false)
+            if not typed:
+                continue
+            defs = single_defs(f.node)
+            for c in ast.walk(f.node):
+                if not (isinstance(c, ast.Call)
+                        and isinstance(c.func, ast.Attribute)
+                        and c.func.attr == "astype" and c.args
+                        and isinstance(c.args[0], ast.Name)
+                        and c.args[0].id in typed):
+                    continue
+                n += 1
+                r.analysed(f)
+                st, it_false = typed[c.args[0].id]
+                inst = f"{f.qualname}:astype({c.args[0].id})"
+                if it_false:
+                    r.ok("ASTYPE1", inst, loc(f, c), dotted(c)[:70],
+                         "check_type(integer_type=False): never an integer "
+                         "dtype")
+                else:
+                    r.violation(
+                        "ASTYPE1", f"{f.fq}|{c.args[0].id}", loc(f, c),
+                        dotted(c)[:90],
+                        f"`{dotted(c)[:60]}` casts a real-valued matrix "
+                        f"(cosines of pi/m, I - e_i C) to `{c.args[0].id}` "
+                        f"from `{dotted(st.value)[:40]}`, whose default "
+                        "integer_type=True keeps an integer `like` / dtype: "
+                        "the cosine form becomes the identity and the "
+                        "braid relations of every label >= 3 fail, with no "
+                        "error", instance=inst)
+    if n == 0:
+        r.ok("ASTYPE1", "modules", ",".join(rels), "",
+             "no .astype(<dtype from check_type>)")
+
+
+def rule_contra1(ctx, rels):
+    r = ctx.r
+    r.rule("CONTRA1", "contradictory beliefs about an argument: a function "
+                      "that reads `p.<attr>` under `try .. except "
+                      "AttributeError` believes p may be a plain array "
+                      "('Isometry or ndarray'); it (and a caller that hands "
+                      "the same p on to it) then reads no other attribute "
+                      "that an ndarray does not have outside such a try. "
+                      "Hyperplane.from_reflection falls back to `matrix = "
+                      "reflection` for arrays and two lines later reads "
+                      "`reflection.dimension`: every ndarray argument "
+                      "raises AttributeError after all")
+    n = 0
+
+    def believers(f):
+        """{param: try node} for params read under try/except AttributeError"""
+        out = {}
+        for t in ast.walk(f.node):
+            if not isinstance(t, ast.Try):
+                continue
+            if not any(h.type is not None and "AttributeError" in dotted(
+                    h.type) for h in t.handlers):
+                continue
+            for b in t.body:
+                for x in ast.walk(b):
+                    if isinstance(x, ast.Attribute) and isinstance(
+                            x.value, ast.Name) and x.value.id in f.params \
+                            and x.value.id not in ("self", "cls"):
+                        # (`self.<attr>` under try is the lazy-attribute
+                        # idiom, not a belief about an argument)
+                        out.setdefault(x.value.id, t)
+        return out
+    for rel in rels:
+        mod = ctx.p.module_by_rel(rel)
+        funcs = [f for f in ctx.p.all_functions if f.module is mod
+                 and f.parent is None]
+        belief = {f: believers(f) for f in funcs}
+        byname = {}
+        for f in funcs:
+            byname.setdefault(f.name, []).append(f)
+        # one level up: a caller passing its parameter to a believer
+        inherited = {}
+        for f in funcs:
+            for c in ast.walk(f.node):
+                if not isinstance(c, ast.Call):
+                    continue
+                nm = c.func.attr if isinstance(c.func, ast.Attribute) else (
+                    c.func.id if isinstance(c.func, ast.Name) else None)
+                cands = byname.get(nm, [])
+                if len(cands) < 1:
+                    continue
+                for g in cands:
+                    if g is f or not belief[g]:
+                        continue
+                    gp = [p for p in g.params if p not in ("self", "cls")]
+                    # qualified static call `Cls.g(p)`: the class must match
+                    if isinstance(c.func, ast.Attribute) and isinstance(
+                            c.func.value, ast.Name) and g.cls is not None \
+                            and c.func.value.id != g.cls.name \
+                            and c.func.value.id not in ("self", "cls"):
+                        continue
+                    for i, a in enumerate(c.args):
+                        if isinstance(a, ast.Name) and a.id in f.params \
+                                and i < len(gp) and gp[i] in belief[g]:
+                            inherited.setdefault(f, {})[a.id] = (g, c)
+        for f in funcs:
+            bel = dict(belief[f])
+            for p, (g, c) in inherited.get(f, {}).items():
+                bel.setdefault(p, c)
+            if not bel:
+                continue
+            for p, why in bel.items():
+                n += 1
+                r.analysed(f)
+                bad = None
+                for x in ast.walk(f.node):
+                    if not (isinstance(x, ast.Attribute)
+                            and isinstance(x.value, ast.Name)
+                            and x.value.id == p
+                            and isinstance(x.ctx, ast.Load)
+                            and x.attr not in NDARRAY_ATTRS):
+                        continue
+                    # guarded by some try/except AttributeError?
+                    par = f.module.parents.get(x)
+                    guarded = False
+                    while par is not None and par is not f.node:
+                        if isinstance(par, ast.Try) and any(
+                                h.type is not None and "AttributeError" in
+                                dotted(h.type) for h in par.handlers) \
+                                and any(x in ast.walk(b) for b in par.body):
+                            guarded = True
+                        par = f.module.parents.get(par)
+                    # hasattr / isinstance tests in force are accepted too
+                    if not guarded:
+                        bad = bad or x
+                inst = f"{f.qualname}:{p}"
+                if bad is None:
+                    r.ok("CONTRA1", inst, loc(f, f.node), p,
+                         "every non-ndarray attribute read is guarded")
+                else:
+                    src = (f"{f.qualname} itself handles AttributeError for "
+                           f"`{p}`" if p in belief[f] else
+                           f"{inherited[f][p][0].qualname}, to which "
+                           f"`{p}` is handed on, handles AttributeError "
+                           "for it")
+                    r.violation(
+                        "CONTRA1", f"{f.fq}|{p}.{bad.attr}", loc(f, bad),
+                        dotted(bad),
+                        f"`{dotted(bad)}` is read unconditionally although "
+                        f"{src} (the documented 'Isometry or ndarray'): "
+                        "for an ndarray the fallback is taken and this "
+                        "read raises AttributeError, so no plain matrix is "
+                        "ever accepted", instance=inst)
+    if n == 0:
+        r.ok("CONTRA1", "modules", ",".join(rels), "",
+             "no parameter is read under try/except AttributeError")
